@@ -70,6 +70,8 @@ def build_harness(tools=None, race=False):
     Returns dict tool -> path.  Raises BuildBroken if naga does not build."""
     os.makedirs(os.path.join(BUILD, "bin"), exist_ok=True)
     with Lock("gobuild"):
+        gomod = "module verifharness\n\ngo 1.25\n\nrequire github.com/gogpu/naga v0.0.0\n\nreplace github.com/gogpu/naga => %s\n" % REPO
+        write_if_changed(os.path.join(HARNESS, "go.mod"), gomod)
         gosum = os.path.join(REPO, "go.sum")
         if os.path.exists(gosum):
             with open(gosum) as f, open(os.path.join(HARNESS, "go.sum"), "w") as g:
